@@ -68,7 +68,7 @@ def handle (st : DState) (j : Json) : D (DState × Json) := do
       let r := v Stacks.empty
       let lines := r.2.map rTraceLine
       pure (st, Json.mkObj [("outcome", "ok"), ("lines", Json.arr (lines.map Json.str).toArray),
-        ("final", rSnap r.1.snap)])
+        ("final", rSnap r.1.snap), ("echo", jDocument d)])
   | "ext" =>
     let r ← extOp st.schema j
     pure (st, Json.mkObj [("r", r)])
@@ -100,7 +100,7 @@ def handle (st : DState) (j : Json) : D (DState × Json) := do
       let base : List (String × Json) := [("outcome", "ok"), ("wf", st.schema.WF), ("single", Json.mkObj single),
         ("mergeStuck", mst.stuck), ("guardHit", mst.guardHit), ("cycleStuck", cst.stuck),
         ("planGroups", Json.arr dflt.toArray)]
-      pure (st, Json.mkObj (base ++ specFields))
+      pure (st, Json.mkObj (base ++ specFields ++ [("echo", jDocument d)]))
   | "collect" =>
     let d ← document (← field j "doc")
     let parents ← listOf nat (← field j "parents")
